@@ -252,6 +252,19 @@ func driveMain(fs *flag.FlagSet, args []string) {
 				die2("%v", err)
 			}
 			if ok, _ := freshReplay(raw); !ok {
+				// Not a function of its own tape: try the run together with what
+				// the same worker process executed before it (history replay).
+				if hf := historyReplay(exe, &rf, u.Before, raw, final, freshReplay); hf {
+					os.Remove(raw)
+					var fin ReplayFile
+					readJSON(final, &fin)
+					fmt.Printf("violated: %s key=%s (run %d preceded by %d earlier run(s) in the same process; not reproducible from its own tape alone)\n  %s\n", fin.Class, fin.Key, u.Idx, len(fin.Prelude), strings.ReplaceAll(fin.Msg, "\n", "\n  "))
+					fmt.Printf("VIOLATION property=%s replay=%s\n", p.ID, final)
+					reported = append(reported, final)
+					nreported++
+					exit = 1
+					break
+				}
 				notSelfContained++
 				os.Remove(raw)
 				continue
@@ -431,4 +444,75 @@ func sanitize(s string) string {
 func selftestMain(fs *flag.FlagSet, args []string) {
 	fs.Parse(args)
 	fmt.Println("selftest: see ./check selftest")
+}
+
+// historyReplay searches for a sequence "earlier runs of the same worker
+// process, then the violating run" that reproduces the violation in a fresh
+// process, minimises the number of earlier runs, writes a self-contained replay
+// file (all tapes recorded) to final and confirms it twice.
+func historyReplay(exe string, rf *ReplayFile, before [][2]int, raw, final string, freshReplay func(string) (bool, string)) bool {
+	if len(before) == 0 {
+		return false
+	}
+	try := func(pre [][2]int) bool {
+		c := *rf
+		c.Prelude = nil
+		for _, b := range pre {
+			c.Prelude = append(c.Prelude, PreludeRun{RunIndex: b[0], SweepK: b[1]})
+		}
+		if err := writeJSON(raw, &c); err != nil {
+			return false
+		}
+		ok, _ := freshReplay(raw)
+		return ok
+	}
+	var pre [][2]int
+	found := false
+	for m := 1; ; m *= 2 {
+		if m > len(before) {
+			m = len(before)
+		}
+		pre = before[len(before)-m:]
+		if try(pre) {
+			found = true
+			break
+		}
+		if m == len(before) {
+			break
+		}
+	}
+	if !found {
+		return false
+	}
+	// minimise: drop chunks of earlier runs while the violation still reproduces
+	deadline := time.Now().Add(40 * time.Second)
+	for chunk := (len(pre) + 1) / 2; chunk >= 1 && len(pre) > 1; chunk /= 2 {
+		for i := 0; i+chunk <= len(pre) && len(pre) > 1 && time.Now().Before(deadline); {
+			cand := append(append([][2]int{}, pre[:i]...), pre[i+chunk:]...)
+			if len(cand) > 0 && try(cand) {
+				pre = cand
+			} else {
+				i += chunk
+			}
+		}
+	}
+	// record the tapes of the earlier runs so that the file stands on its own
+	c := *rf
+	c.Prelude = nil
+	for _, b := range pre {
+		c.Prelude = append(c.Prelude, PreludeRun{RunIndex: b[0], SweepK: b[1]})
+	}
+	if err := writeJSON(raw, &c); err != nil {
+		return false
+	}
+	cmd := exec.Command(exe, "replay", "-quiet", "-file", raw, "-recordprelude", final)
+	cmd.Env = append(os.Environ(), "GOMAXPROCS=1")
+	cmd.CombinedOutput()
+	ok1, h1 := freshReplay(final)
+	ok2, h2 := freshReplay(final)
+	if !ok1 || !ok2 || h1 != h2 {
+		os.Remove(final)
+		return false
+	}
+	return true
 }
